@@ -187,6 +187,8 @@ def main(argv=None):
         smt_ms += extra_res.get("solver_ms", 0)
         cmds += extra_res.get("cmds", [])
 
+    if not obligations and not und:
+        und.append("vacuity: this run generated zero obligations")
     failed_names = sorted({x["obligation"] for x in failed})
     # a failing obligation must be one we know
     for n in failed_names:
